@@ -1,14 +1,14 @@
 """C06 — bounded explorer part (DESIGN 4.C06); proved local clauses are added by contracts/mesh.py when present."""
-from vlib.core import Check
+from vlib.core import Check, guarded
 
 
 def run(tier, seed):
     chk = Check("C06", tier, seed, "other", "./check C06 --tier " + tier)
     try:
         from checks import c06_proved
-        c06_proved.add_obligations(chk, tier, seed)
+        guarded(chk, 'proved part c06_proved', c06_proved.add_obligations, chk, tier, seed)
     except ImportError:
         chk.notes.append("proved local clauses not built yet")
     from bounded import mesh_explorer
-    mesh_explorer.run(chk, "C06", tier, seed)
+    guarded(chk, 'bounded part mesh_explorer.run', mesh_explorer.run, chk, "C06", tier, seed)
     return chk.finish()
